@@ -372,3 +372,89 @@ Proof.
   - intros y Hy. discriminate.
   - intros y Hy. discriminate.
 Qed.
+
+(* ------------------------------------------------------------------ [down] is reachability *)
+Lemma downstream_mono rs rs' x t : incl rs rs' -> downstream rs x t -> downstream rs' x t.
+Proof.
+  intros Hi H. induction H as [r Hr Hx|r p Hr Hp _ IH].
+  - apply ds_direct; [now apply Hi|assumption].
+  - apply (ds_trans rs' x r p); [now apply Hi|assumption|assumption].
+Qed.
+
+(* in a well-formed list, no rule before r mentions the target of r, and nobody before r produces it *)
+Lemma wfb_app_inv done r post : wfb (done ++ r :: post) = true ->
+  (forall r0, In r0 done -> ~ In (r_target r) (r_prereqs r0) /\ r_target r0 <> r_target r) /\
+  wfb (r :: post) = true.
+Proof.
+  induction done as [|a done IH]; intros H; [split; [intros r0 []|assumption]|].
+  cbn [app] in H. apply wfb_cons in H as (Hpre & Hta & Hw). destruct (IH Hw) as [I1 I2]. split; [|assumption].
+  intros r0 [<-|H0]; [|now apply I1]. split.
+  - intros Hin. destruct (Hpre (r_target r) (in_or_app _ _ _ (or_introl Hin))) as [_ Hm].
+    apply memf_false in Hm. apply Hm. unfold targets. rewrite map_app. apply in_or_app. right. now left.
+  - intros E. apply memf_false in Hta. apply Hta. unfold targets. rewrite map_app. apply in_or_app. right.
+    left. now symmetry.
+Qed.
+
+Lemma down_fold x todo : forall done d,
+  wfb (done ++ todo) = true -> leaves_flat (done ++ todo) ->
+  (forall t, In t d <-> downstream done x t) ->
+  forall t, In t (fold_left (down_step x) todo d) <-> downstream (done ++ todo) x t.
+Proof.
+  induction todo as [|r post IH]; intros done d Hwf Hlf Hd t.
+  - rewrite app_nil_r. apply Hd.
+  - cbn [fold_left].
+    replace (done ++ r :: post) with ((done ++ [r]) ++ post) in * by now rewrite <- app_assoc.
+    apply IH; try assumption. clear t. intros t.
+    rewrite <- app_assoc in Hwf. cbn [app] in Hwf.
+    destruct (wfb_app_inv done r post Hwf) as [Hbefore Hw]. apply wfb_cons in Hw as (Hpre & _ & _).
+    assert (Hrec : r_prereqs r <> [] -> r_recipe r = true).
+    { intros Hne. destruct (r_recipe r) eqn:E; [reflexivity|]. exfalso. apply Hne. apply (Hlf r); [|assumption].
+      apply in_or_app. left. apply in_or_app. right. now left. }
+    assert (Hinc : incl done (done ++ [r])) by (intros a Ha; apply in_or_app; now left).
+    unfold down_step. split.
+    + (* computed -> reachable *)
+      intros Hin. destruct (r_recipe r && existsb (fun p => (p =? x) || memf p d) (r_prereqs r)) eqn:E.
+      * apply in_app_or in Hin as [Hin|[<-|[]]].
+        -- apply (downstream_mono done); [assumption|now apply Hd].
+        -- apply andb_true_iff in E as [_ E]. apply existsb_exists in E as [p [Hp E]].
+           assert (Hr : In r (done ++ [r])) by (apply in_or_app; right; now left).
+           apply orb_true_iff in E as [E|E].
+           ++ apply N.eqb_eq in E. subst p. now apply ds_direct.
+           ++ apply (ds_trans _ x r p); [assumption|assumption|].
+              apply (downstream_mono done); [assumption|]. apply Hd. now apply memf_In.
+      * apply (downstream_mono done); [assumption|now apply Hd].
+    + (* reachable -> computed *)
+      intros H.
+      assert (Hsub : forall y, In y d ->
+                In y (if r_recipe r && existsb (fun p => (p =? x) || memf p d) (r_prereqs r) then d ++ [r_target r] else d)).
+      { intros y Hy. destruct (r_recipe r && _); [apply in_or_app; now left|assumption]. }
+      induction H as [r0 Hr0 Hx|r0 p Hr0 Hp Hds IHd].
+      * apply in_app_or in Hr0 as [Hr0|[<-|[]]].
+        -- apply Hsub. apply Hd. now apply ds_direct.
+        -- rewrite Hrec by (intros E; rewrite E in Hx; contradiction). cbn [andb].
+           assert (E : existsb (fun p => (p =? x) || memf p d) (r_prereqs r) = true).
+           { apply existsb_exists. exists x. split; [assumption|]. now rewrite N.eqb_refl. }
+           rewrite E. apply in_or_app. right. now left.
+      * apply in_app_or in Hr0 as [Hr0|[<-|[]]].
+        -- (* a rule before r: its prerequisite p is not the target of r, so p was computed before *)
+           apply Hsub. apply Hd. apply (ds_trans done x r0 p); [assumption|assumption|]. apply Hd.
+           destruct (Hbefore r0 Hr0) as [Hnot _].
+           destruct (r_recipe r && existsb (fun p0 => (p0 =? x) || memf p0 d) (r_prereqs r)); [|assumption].
+           apply in_app_or in IHd as [IHd|[E|[]]]; [assumption|]. exfalso. apply Hnot. now rewrite E.
+        -- rewrite Hrec by (intros E; rewrite E in Hp; contradiction). cbn [andb].
+           assert (Hpd : In p d).
+           { destruct (Hpre p (in_or_app _ _ _ (or_introl Hp))) as [Hne _].
+             destruct (r_recipe r && existsb (fun p0 => (p0 =? x) || memf p0 d) (r_prereqs r)); [|assumption].
+             apply in_app_or in IHd as [IHd|[E|[]]]; [assumption|]. now symmetry in E. }
+           assert (E : existsb (fun p0 => (p0 =? x) || memf p0 d) (r_prereqs r) = true).
+           { apply existsb_exists. exists p. split; [assumption|]. apply orb_true_iff. right. now apply memf_In. }
+           rewrite E. apply in_or_app. right. now left.
+Qed.
+
+(* the recipes predicted by [down] are exactly the targets reachable from x along normal-prerequisite edges *)
+Theorem down_downstream rs x t : wfb rs = true -> leaves_flat rs ->
+  (In t (down x rs) <-> downstream rs x t).
+Proof.
+  intros Hwf Hlf. unfold down. apply (down_fold x rs [] []); try assumption.
+  intros y. split; [intros []|]. intros H. induction H as [r [] _|r p [] _ _ _].
+Qed.
